@@ -4,7 +4,7 @@ CONSTANTS
   AllowD2 = TRUE
   Keys = {0, 1, 2}
   Vals = {"a", "b"}
-  Grans = {1, 10}
+  Grans = {1}
   MaxItems = 4
   MaxAdds = 5
 INVARIANTS TypeOK Sorted UniqueOK IdsDistinct CursorOK RangeTheorem
